@@ -593,6 +593,11 @@ impl ObjValue {
 
 	fn get_idx(&self, key: IStr, core: CoreIdx) -> Result<Option<Val>> {
 		let cache_key = (key.clone(), core);
+		// Assertions come before the cache: they may have evaluated (and cached) this very field,
+		// and a value cached while they were failing must not be served as if they had passed.
+		if !self.0.assertions_ran.get() && !is_asserting(self) {
+			self.run_assertions()?;
+		}
 		{
 			let mut cache = self.0.value_cache.borrow_mut();
 			// entry_ref candidate?
